@@ -892,6 +892,10 @@ class Gen7:
             prog.append(data(1, [{"k": "def", "name": lk, "path": [lk]}]))
         prog += late_macros
         if self.late:
-            prog += [const("lateT", num(1)), const("lateF", num(0))]
+            if self.r.random() < 0.5:
+                prog += [const("lateT", num(1)), const("lateF", num(0))]
+            else:
+                # ... through a chain of forward constants: every link costs the assembler one more pass
+                prog += [const("lateT", ident(["lateT2"])), const("lateF", ident(["lateF2"])), const("lateT2", ident(["lateT3"])), const("lateF2", num(0)), const("lateT3", num(1))]
         separate_label_from_braces(prog)
         return prog, files
